@@ -15,3 +15,10 @@ CANV_EXCEPTIONS = {
     "display.curses._test.run:r.coords =": "manual curses test harness operating on its own FakeRender stand-in, not on a widget canvas",
     "display.curses._test.run:r.cursor =": "manual curses test harness operating on its own FakeRender stand-in, not on a widget canvas",
 }
+
+# Origin-level infeasible raises for the EXC engine: "function:Exc:construct" -> dominating fact.
+C05_INFEASIBLE = {
+    "display.escape.KeyqueueTrie.read_sgrmouse_info:ValueError:raise ValueError(f'Unknown mouse action: {action!r}')": (
+        "the scan loop only breaks (found_m) on 'M' or 'm', so value[-1] is one of the two letters tested before this else-branch"
+    ),
+}
